@@ -381,3 +381,137 @@ Proof.
   - destruct (hdesc h) as [d|]; [|left; reflexivity]. destruct (dtoks d) as [|t [|t2 r]]; auto. right. split; [exact I|discriminate].
   - destruct (hcomment h); [right; split; [exact I|discriminate]|left; reflexivity].
 Qed.
+
+(* ---- assignments ----------------------------------------------------------------------------- *)
+Definition assign_items (a : assign) : list sitem :=
+  ref_items (akey a)
+  ++ (if aappend a then [Sp; Tok PLUS [43]; Tok ASSIGN [61]; Sp] else [Sp; Tok ASSIGN [61]; Sp])
+  ++ value_items (avalue a)
+  ++ comment_items (acomment a).
+
+Lemma render_assign_items a : alx a ->
+  render_items (assign_items a) = assign_text a ++ inline_comment (acomment a).
+Proof.
+  intros (Hr & Hv & Hc & _). unfold assign_items, assign_text. rewrite !render_items_app, <- !app_assoc.
+  rewrite (render_ref_items (akey a)) by apply Hr. f_equal. f_equal; [destruct (aappend a); reflexivity|].
+  rewrite render_value_items by exact Hv. f_equal. apply render_comment_items.
+Qed.
+
+Lemma value_items_ends v : vlx v -> ends_with_tok (value_items v) /\ value_items v <> [].
+Proof.
+  intros H. destruct v as [t s e|vs s e]; [split; [exact I|discriminate]|]. split; [|discriminate].
+  cbn [value_items]. change (Tok LBRACK [91] :: ?x ++ [Tok RBRACK [93]]) with ((Tok LBRACK [91] :: x) ++ [Tok RBRACK [93]]).
+  apply ends_with_tok_app; [discriminate|exact I].
+Qed.
+
+Ltac sep_tac := cbn; auto;
+  try (unfold not_starting; cbn; congruence);
+  try (split; [vm_compute; reflexivity|lia]);
+  try (vm_compute; reflexivity);
+  try (right; reflexivity).
+
+Lemma sep_ok_after_value typ tail : is_vlit typ = true -> ends_line_ty typ = false -> sep_ok typ (32 :: tail).
+Proof. intros Hv He. destruct typ; try discriminate; sep_tac. Qed.
+Lemma sep_ok_at_nl typ tail : is_vlit typ = true -> sep_ok typ (10 :: tail).
+Proof. intros Hv. destruct typ; try discriminate; sep_tac. Qed.
+
+Lemma assign_items_ok a tail : alx a -> items_ok (assign_items a) (10 :: tail).
+Proof.
+  intros (Hr & Hv & Hc & He). unfold assign_items.
+  apply items_ok_app; [apply ref_items_ok; [apply Hr|]; destruct (aappend a); cbn; vm_compute; reflexivity|].
+  apply items_ok_app; [destruct (aappend a); cbn; repeat split; reflexivity|].
+  apply items_ok_app; [|apply comment_items_ok; exact Hc].
+  apply value_items_ok; [exact Hv|].
+  destruct (avalue a) as [t s e|vs s e]; [|exact I]. cbn [after_value_ok].
+  inversion Hv; subst. rewrite (vlit_ctyp t) by assumption.
+  destruct (acomment a) as [c|] eqn:Ec.
+  - cbn [comment_items render_items flat_map render_item app].
+    destruct (ends_line_ty (ty t)) eqn:El; [specialize (He El); discriminate|].
+    apply sep_ok_after_value; assumption.
+  - cbn. apply sep_ok_at_nl. assumption.
+Qed.
+
+Lemma assign_items_ends a : alx a -> ends_with_tok (assign_items a) /\ assign_items a <> [].
+Proof.
+  intros (Hr & Hv & Hc & He). unfold assign_items.
+  destruct (ref_items_ends (akey a) (proj1 Hr)) as [A B].
+  split; [|intros H; apply app_eq_nil in H; destruct H as [H _]; contradiction].
+  destruct (value_items_ends (avalue a) Hv) as [V1 V2].
+  apply ends_with_tok_app; [destruct (aappend a); discriminate|].
+  apply ends_with_tok_app; [intros H; apply app_eq_nil in H; destruct H; contradiction|].
+  destruct (acomment a); cbn [comment_items]; [apply ends_with_tok_app; [discriminate|exact I]|rewrite app_nil_r; exact V1].
+Qed.
+
+(* ---- a rendered line: leading tabs, the items, the newline --------------------------------------- *)
+Lemma lex_run_tabs : forall n s toks s' r, rest s = tabs n ++ r -> toks <> [] ->
+  (forall s0, rest s0 = r -> lex_run s0 toks s') -> lex_run s toks s'.
+Proof.
+  induction n as [|n IH]; intros s toks s' r Hr Hne H; [apply H; exact Hr|].
+  cbn [tabs repeat app] in Hr. destruct (next_cons s _ _ Hr) as [_ Hn].
+  apply (lex_run_skip s 9 (tabs n ++ r)); [exact Hr|vm_compute; reflexivity|lia|exact Hne|].
+  apply (IH (next s) toks s' r Hn Hne H).
+Qed.
+
+Theorem line_relex items n REST s :
+  items_ok items (10 :: REST) -> ends_with_tok items -> items <> [] ->
+  rest s = tabs n ++ render_items items ++ 10 :: REST ->
+  exists s', lex_run s (item_toks items ++ [(EOL, [10])]) s' /\ rest s' = REST.
+Proof.
+  intros Hok He Hne Hr.
+  assert (Hrun : forall s0, rest s0 = render_items items ++ 10 :: REST ->
+            exists s', lex_run s0 (item_toks items ++ [(EOL, [10])]) s' /\ rest s' = REST).
+  { intros s0 H0. destruct (items_relex items (10 :: REST) s0 Hok He H0) as (s1 & Hrun & Hs1).
+    destruct (relex_eol REST s1 Hs1) as (st & en & s2 & E & Hs2).
+    exists s2. split; [|exact Hs2]. eapply lex_run_app; [exact Hrun|].
+    change (EOL, [10]) with (etok (mkTok EOL [10] st en)). econstructor; [exact E|constructor]. }
+  (* the run does not depend on the state the tabs are skipped from: take the one after the tabs *)
+  revert s Hr. induction n as [|n IH]; intros s Hr; [apply Hrun; exact Hr|].
+  cbn [tabs repeat app] in Hr. destruct (next_cons s _ _ Hr) as [_ Hn].
+  destruct (IH (next s) Hn) as (s' & Hrun' & Hs'). exists s'. split; [|exact Hs'].
+  apply (lex_run_skip s 9 (tabs n ++ render_items items ++ 10 :: REST)); [exact Hr|vm_compute; reflexivity|lia| |exact Hrun'].
+  destruct (item_toks items); discriminate.
+Qed.
+
+(* the lines of the four single-line fragment kinds *)
+Definition frag_items (f : fragment) : list sitem :=
+  match f with
+  | FHeader h => header_items h
+  | FAssign a => assign_items a
+  | FComment t => [Tok (ty t) (lit t)]
+  | FClose t => [Tok RBRACE [125]]
+  | FDesc _ => []
+  end.
+
+Definition frag_line_text (f : fragment) : list N :=
+  match f with
+  | FHeader h => header_text h ++ inline_comment (hcomment h)
+  | FAssign a => assign_text a ++ inline_comment (acomment a)
+  | FComment t => token_source t
+  | FClose t => token_source t
+  | FDesc _ => []
+  end.
+
+Theorem fragment_line_relex f n REST s :
+  frag_lx f -> (forall d, f <> FDesc d) ->
+  rest s = tabs n ++ frag_line_text f ++ 10 :: REST ->
+  exists s', lex_run s (item_toks (frag_items f) ++ [(EOL, [10])]) s' /\ rest s' = REST.
+Proof.
+  intros Hlx Hnd Hr. destruct f as [h|a|d|t|t]; cbn [frag_lx frag_items frag_line_text] in *.
+  - destruct (header_items_ends h Hlx) as [A B].
+    apply (line_relex (header_items h) n REST s (header_items_ok h REST Hlx) A B).
+    rewrite render_header_items by exact Hlx. exact Hr.
+  - destruct (assign_items_ends a Hlx) as [A B].
+    apply (line_relex (assign_items a) n REST s (assign_items_ok a REST Hlx) A B).
+    rewrite render_assign_items by exact Hlx. exact Hr.
+  - exfalso. apply (Hnd d). reflexivity.
+  - destruct Hlx as [Hty Hlx]. apply (line_relex [Tok (ty t) (lit t)] n REST s); [|exact I|discriminate|].
+    + cbn. unfold tok_lx, ctyp in Hlx. destruct Hty as [Hty|Hty]; rewrite Hty in *; (split; [exact Hlx|]); split; try exact I.
+      right. reflexivity.
+    + cbn [render_items flat_map render_item]. rewrite app_nil_r.
+      replace (token_source (mkTok (ty t) (lit t) pos0 pos0)) with (token_source t) by reflexivity. exact Hr.
+  - destruct Hlx as [Hty Hl]. apply (line_relex [Tok RBRACE [125]] n REST s); [|exact I|discriminate|].
+    + cbn. repeat split; reflexivity.
+    + cbn [render_items flat_map render_item]. rewrite app_nil_r.
+      replace (token_source (mkTok RBRACE [125] pos0 pos0)) with (token_source t); [exact Hr|].
+      unfold token_source. rewrite Hty, Hl. reflexivity.
+Qed.
